@@ -1,3 +1,144 @@
+import Invoke.Model.RunOpts
+import Invoke.Model.Context
 import Driver.Util
-/-! stub: replaced by the owner of this driver -/
-def main : IO Unit := Drv.mainLoop (fun _ => "bad-op")
+/-! Line-protocol driver for C15 (`drv_runopts`).
+
+  values  V := N | F | T | I<int> | S<chars> | X<id> | M<k~v;k~v…> | L<n>        (chars = decimal code points joined by '.')
+  dicts      := key=V,key=V…   ("-" = empty)
+  run <cmd chars> <kwargs> <config overrides of run.*> <timeouts.command : V> <parent env : M…>
+      → ok echo=… start=… shell=… startenv=… env=… hide=… out=… err=… in=… timeout=… opts=…   |   err <kind>
+  hide <V> <out_stream V> <err_stream V>  → a+b | - | ValueError
+  cwd <list of paths>                     → chars of Context.cwd
+  ctx <prompt chars> <sudo.user: N|S…> <tokens joined by ','> → events, raised flag and final stacks
+      tokens: R<cmd> run | Q<cmd> run that raises | U<cmd>/<user kwarg A|N|S…>/<env names> sudo | O observe | X raise
+              | C<path> open cd | P<prefix> open prefix | Y open try | E close block
+  resp <password kwarg A|N|S…> <sudo.password N|S…> → chars written by the sudo auto-responder -/
+open Inv Inv.Generated Drv
+
+def encStr (s : String) : String := encChars s.toList
+def decStr (s : String) : String := String.ofList (decChars s)
+
+def decV (s : String) : V :=
+  let body := (s.drop 1).toString
+  if s == "N" then .none
+  else if s == "F" then .false
+  else if s == "T" then .true
+  else if s.startsWith "I" then .int (body.toInt?.getD 0)
+  else if s.startsWith "S" then .str (decStr body)
+  else if s.startsWith "X" then .stream (body.toNat?.getD 0)
+  else if s.startsWith "L" then .list (body.toNat?.getD 0)
+  else if s.startsWith "M" then
+    .mapping (if body.isEmpty then [] else (body.splitOn ";").map (fun kv =>
+      match kv.splitOn "~" with
+      | [k, v] => (decStr k, decStr v)
+      | _ => ("?", "?")))
+  else .none
+
+def encEnv (e : EnvMap) : String :=
+  ";".intercalate ((e.mergeSort (fun a b => a.1 ≤ b.1)).map (fun kv => encStr kv.1 ++ "~" ++ encStr kv.2))
+
+def encV : V → String
+  | .none => "N"
+  | .false => "F"
+  | .true => "T"
+  | .int i => "I" ++ toString i
+  | .str s => "S" ++ encStr s
+  | .stream i => "X" ++ toString i
+  | .list n => "L" ++ toString n
+  | .mapping kvs => "M" ++ encEnv kvs
+
+def decKW (s : String) : KW :=
+  if s == "-" then [] else (s.splitOn ",").filterMap (fun kv =>
+    match kv.splitOn "=" with
+    | [k, v] => some (k, decV v)
+    | _ => none)
+
+def b01 (b : Bool) : String := if b then "1" else "0"
+
+def encHide (h : List String) : String := if h.isEmpty then "-" else "+".intercalate h
+
+def showErr : RunErr → String
+  | .typeError => "err TypeError"
+  | .asyncDisown => "err ValueError"
+  | .badHide => "err ValueError"
+
+def encOpts (o : KW) : String :=
+  ",".intercalate (((o.filter (fun p => p.1 != "hide")).mergeSort (fun a b => a.1 ≤ b.1)).map (fun p => p.1 ++ "=" ++ encV p.2))
+
+def showRun (r : RunOut) : String :=
+  let u := r.unified
+  "ok echo=" ++ b01 r.echoed ++
+  " start=" ++ (match r.started with | none => "-" | some s => "c" ++ encChars s.command) ++
+  " shell=" ++ (match r.started with | none => "-" | some s => encV s.shell) ++
+  " startenv=" ++ (match r.started with | none => "-" | some s => "e" ++ encEnv s.env) ++
+  " env=" ++ encEnv r.env ++
+  " hide=" ++ encHide u.hide ++
+  " out=" ++ encV u.outStream ++ " err=" ++ encV u.errStream ++ " in=" ++ encV u.inStream ++
+  " timeout=" ++ encV u.timeout ++ " opts=" ++ encOpts u.opts
+
+/-- lists of strings: elements prefixed by 'e', joined by ';' ("" = empty list) -/
+def decStrs (s : String) : List Str :=
+  if s.isEmpty then [] else (s.splitOn ";").map (fun t => decChars (t.drop 1).toString)
+def encStrs (xs : List Str) : String := ";".intercalate (xs.map (fun x => "e" ++ encChars x))
+
+instance : Inhabited Prog := ⟨.done⟩
+
+partial def parseSeq : List String → Prog × List String
+  | [] => (.done, [])
+  | t :: rest =>
+    let body := (t.drop 1).toString
+    if t == "E" then (.done, rest)
+    else if t == "O" then let (k, r) := parseSeq rest; (.obs k, r)
+    else if t == "X" then let (_, r) := parseSeq rest; (.raise, r)
+    else if t.startsWith "R" then let (k, r) := parseSeq rest; (.run (decChars body) k, r)
+    else if t.startsWith "Q" then let (_, r) := parseSeq rest; (.run (decChars body) .raise, r)
+    else if t.startsWith "U" then
+      let (k, r) := parseSeq rest
+      match body.splitOn "/" with
+      | [c, u, e] =>
+        let ukw : Option (Option Str) :=
+          if u == "A" then none else if u == "N" then some none else some (some (decChars (u.drop 1).toString))
+        (.sudo (decChars c) ukw (decStrs (e.replace ":" ";")) k, r)
+      | _ => (.done, r)
+    else if t.startsWith "C" then
+      let (b, r1) := parseSeq rest
+      let (k, r2) := parseSeq r1
+      (.cd (decChars body) b k, r2)
+    else if t.startsWith "P" then
+      let (b, r1) := parseSeq rest
+      let (k, r2) := parseSeq r1
+      (.pfx (decChars body) b k, r2)
+    else if t == "Y" then
+      let (b, r1) := parseSeq rest
+      let (k, r2) := parseSeq r1
+      (.catch b k, r2)
+    else (.done, rest)
+
+def showEv : Ev → String
+  | .ran c => "r" ++ encChars c
+  | .stacks p c => "s" ++ encStrs p ++ "/" ++ encStrs c
+
+def showExec (o : ExecOut) : String :=
+  "|".intercalate (o.log.map showEv) ++ " raised=" ++ b01 o.raised ++ " final=" ++ encStrs o.ctx.prefixes ++ "/" ++ encStrs o.ctx.cwds
+
+def step (line : String) : String :=
+  match line.splitOn " " with
+  | ["run", cmd, kw, cfg, ct, penv] =>
+    match runBody (decV penv).asEnv (decKW cfg) (decV ct) (decKW kw) (decChars cmd) with
+    | .error e => showErr e
+    | .ok r => showRun r
+  | ["hide", v, o, e] =>
+    match normalizeHide (decV v) (decV o) (decV e) with
+    | none => "ValueError"
+    | some h => encHide h
+  | ["cwd", ps] => encChars (cwdOf (decStrs ps))
+  | ["ctx", prompt, user, toks] =>
+    let u : Option Str := if user == "N" then none else some (decChars (user.drop 1).toString)
+    let prog := (parseSeq (if toks.isEmpty then [] else toks.splitOn ",")).1
+    showExec (exec { prompt := decChars prompt, user := u, password := none } { prefixes := [], cwds := [] } prog)
+  | ["resp", kw, cfg] =>
+    let dec (x : String) : Option Str := if x == "N" then none else some (decChars (x.drop 1).toString)
+    encChars (sudoResponse (popKw (if kw == "A" then none else some (dec kw)) (dec cfg)))
+  | _ => "bad-op"
+
+def main : IO Unit := mainLoop step
